@@ -327,6 +327,57 @@ def ndbc_date_columns(repo, rep):
     rep.floor("R-C13-11", "date-column drops in read_file", n, 2)
 
 
+def reader_buffers(repo, rep):
+    """R-C13-13: a reader object that fills an array attribute element by element for every record allocates that array afresh,
+    unconditionally, before filling it - the records already handed on keep their own storage.  R-C13-14: the numpy regridding kernel that
+    the readers call per record returns a new array, never its input (the per-record list would otherwise hold one array many times)."""
+    rep.rule("R-C13-13", "reader objects allocate an element-wise filled array attribute afresh and unconditionally in the method that fills it (a buffer "
+                         "kept while its shape is unchanged is shared by every record already emitted)")
+    n = 0
+    for fi in repo.all_funcs():
+        if not fi.qualname.startswith(("wavespectra.input.", "wavespectra.core.swan.")) or fi.cls is None:
+            continue
+        filled = {}
+        for st in ast.walk(fi.node):
+            tg = st.targets if isinstance(st, ast.Assign) else [st.target] if isinstance(st, ast.AugAssign) else []
+            for t in tg:
+                if isinstance(t, ast.Subscript) and isinstance(t.value, ast.Attribute) and isinstance(t.value.value, ast.Name) and t.value.value.id == "self":
+                    filled.setdefault(t.value.attr, st)
+        for attr, first_fill in filled.items():
+            n += 1
+            allocs = [a for a in ast.walk(fi.node) if isinstance(a, ast.Assign) and any(
+                isinstance(t, ast.Attribute) and isinstance(t.value, ast.Name) and t.value.id == "self" and t.attr == attr for t in a.targets)
+                and any(isinstance(x, ast.Call) for x in ast.walk(a.value))]
+            if not allocs:
+                continue        # filled in place but allocated elsewhere (constructor): R-C13-8 covers state kept across records
+            from ..astutil import path_conditions
+            uncond = [a for a in allocs if a.lineno < first_fill.lineno and not path_conditions(fi.node, a)]
+            if uncond:
+                rep.ok("R-C13-13", f"{fi.file}:{uncond[0].lineno} {fi.short}", unparse(uncond[0])[:80], f"self.{attr} allocated afresh before it is filled")
+            else:
+                a0 = allocs[0]
+                pcs = path_conditions(fi.node, a0)
+                rep.fail("R-C13-13", fi.file, a0.lineno, fi.qualname, f"{unparse(a0)[:70]}  under `{unparse(pcs[0][0])[:60] if pcs else '?'}`",
+                         f"self.{attr} is filled element by element for each record but only re-allocated under a condition: records that keep the "
+                         "shape share ONE array, so every record already collected shows the values of the last one read")
+    rep.floor("R-C13-13", "element-wise filled reader attributes", n, 1)
+    rep.rule("R-C13-14", "interp_spec (called once per record by the readers) returns a new array on every path, never its input array")
+    from ..effects import Engine
+    eng = Engine(repo)
+    eng.solve()
+    fi = repo.func("wavespectra.core.utils.interp_spec")
+    ret = eng.summ[fi.qualname].ret
+    roots = {r for r, _ in (ret.all_pairs() if ret is not None else [])}
+    if "p:inspec" in roots:
+        from ..astutil import returns as _rets
+        rr = _rets(fi.node)
+        rep.fail("R-C13-14", fi.file, rr[0][0].lineno if rr else fi.node.lineno, fi.qualname, "return value may be the input array 'inspec' itself",
+                 "when no interpolation is needed the kernel hands back its input: a reader that re-uses one reading buffer then stores the same array "
+                 "for every record")
+    else:
+        rep.ok("R-C13-14", f"{fi.file}:{fi.node.lineno} interp_spec", "return value", "fresh array on every path (alias analysis of the return value)")
+
+
 def run(repo, rep, tier):
     rep.rule("R-C13-10", "every parameter of the functions behind this property is read (file readers): none is accepted and then ignored, and no control parameter (cutoff, limit, tolerance, window, count, switch) is replaced by another value before use (coercion and default filling aside)")
     from .shared import unused_parameters
@@ -349,6 +400,7 @@ def run(repo, rep, tier):
     passthrough_and_product(repo, rep)
     time_sorted(repo, rep)
     parallel_lists(repo, rep)
+    reader_buffers(repo, rep)
     ndbc_date_columns(repo, rep)
     from .c11 import dir_permutation
     dir_permutation(repo, rep, "R-C13-6")
